@@ -49,6 +49,12 @@ func c19Union(a, b map[string]bool) map[string]bool {
 	return out
 }
 
+// open finding caller-slice-retained (fixes/C19-6): these keep the variadic slice they are called with
+var c19RetainsCallerSlice = map[string]bool{
+	"WrapRoundTrip": true, "Transport.WrapRoundTrip": true, "SetHTTP2SettingsFrame": true, "Transport.SetHTTP2SettingsFrame": true,
+	"SetHTTP2PriorityFrames": true, "Transport.SetHTTP2PriorityFrames": true,
+}
+
 // setters whose contract is "use THIS object" (the object stays the caller's): not part of caller-keeps
 var c19KeepsArgByContract = map[string]string{
 	"SetProxyConnectHeader": "mirrors net/http.Transport.ProxyConnectHeader: the header map is the field",
@@ -132,7 +138,11 @@ func TestVerif_C19_same(t *testing.T) {
 	fresh := func() *Client { c := C(); c.SetLogger(nil); return c }
 	report := func(kind, id string, diff []string, human string) {
 		ok := len(diff) == 0
-		s.Observe(kind+" "+id, ok, "", true, human, strings.Join(diff, " || "))
+		class := ""
+		if !ok && kind == "caller-keeps" && c19RetainsCallerSlice[id] {
+			class = "caller-slice-retained"
+		}
+		s.Observe(kind+" "+id, ok, class, true, human, strings.Join(diff, " || "))
 		s.Count(kind)
 	}
 	cloneN := func(c *Client, depth int) *Client {
